@@ -93,7 +93,8 @@ NamesIn(x) == (IF x.t \in {"call", "ref"} THEN {x.f} ELSE {})
 \* D1: a ^ that is evaluated inside the scope of an object
 UsesCaretInObjectScope(ns, cur, f) ==
   ~f.abs /\ \E k \in 0..(f.carets - 1) : k <= Len(cur) /\ IsObject(ns, Prefix(cur, Len(cur) - k))
-\* D2/D4: the path that has to be looked up names an object that is followed by a further segment
+\* D2 (Scope directives and declarations, at load time) / D2c (names and invocations in method bodies):
+\* the path that has to be looked up names an object that is followed by a further segment
 PathThroughObject(ns, cur, f, segs) ==
   LET b == Base(cur, f) IN
   b # None /\ \E i \in 1..(Len(segs) - 1) : IsObject(ns, b \o Prefix(segs, i))
@@ -101,13 +102,16 @@ LookupSegs(t) == IF t.k \in {"open", "method", "decl"} THEN Front(t.f.segs) ELSE
 \* D3: a name (last segment) that is declared more than once in the program: a load-time lookup may
 \* then see a later / not yet relocated namesake (the parser resolves against the finished tree)
 ReusesName(names, seg) == seg \in names \/ seg \in PredefSegs
-\* D1b: a ^ inside a Scope directive that the parser cannot merge in its first pass, because the
-\* directive (or one around it) names an object that is not yet where it belongs: declared with a
-\* path from another place (`displaced`), or inside such a late directive.  The ^ is then taken
-\* relative to the place where the directive is WRITTEN.
-Displaces(st, p)  == Front(p) # (IF st.stack = <<>> THEN <<>> ELSE Last(st.stack).p) \/ (st.stack # <<>> /\ Last(st.stack).late)
-LateTarget(st, p) == (st.stack # <<>> /\ Last(st.stack).late) \/ \E i \in 1..Len(p) : Prefix(p, i) \in st.displaced
-CaretUnderLateScope(st, f) == ~f.abs /\ f.carets > 0 /\ st.stack # <<>> /\ Last(st.stack).late
+\* D1b: a ^ inside a Scope directive that the parser cannot merge in its first pass.  The ^ is then taken
+\* relative to the place where the directive is WRITTEN.  A directive is `late` when its target (or a
+\* scope on the way to it) is an object that is not yet where it belongs - declared with a path from
+\* another place, or written in a place that is itself not final (`displaced`) -, when it is a relative
+\* name written in such a place (`off`), or when it is nested in a late directive.
+TopLate(st) == st.stack # <<>> /\ Last(st.stack).late
+TopOff(st)  == st.stack # <<>> /\ Last(st.stack).off
+Displaces(st, p)     == Front(p) # (IF st.stack = <<>> THEN <<>> ELSE Last(st.stack).p) \/ TopOff(st)
+LateScope(st, f, p)  == TopLate(st) \/ (\E i \in 1..Len(p) : Prefix(p, i) \in st.displaced) \/ (~f.abs /\ TopOff(st))
+CaretUnderLateScope(st, f) == ~f.abs /\ f.carets > 0 /\ TopLate(st)
 \* D8: Scope(\): the root as the target of a Scope directive
 RootScopeDirective(t) == t.k = "scope" /\ t.f.segs = <<>>
 \* D9: an If whose body is empty (closed without a statement)
@@ -117,14 +121,15 @@ UsesOperator(t) == t.k \in {"stmt", "if", "while"} /\ \E i \in 1..Len(t.x) : Has
 UsesWhile(t)    == t.k = "while"
 
 (* ------------------------------------------------------------------ the loader *)
-\* st: [ns, names (declared last segments), displaced (see D1b), stack (<<[p, t, cnt, late]>>), pend (invocations of this table),
+\* st: [ns, names (declared last segments), displaced (see D1b), stack (<<[p, t, cnt, late, off]>>), pend (invocations of this table),
 \*      calls (resolved invocations of finished tables), tab, trig (finding ids met), err]
 S0 == [ns |-> Predef, names |-> {}, displaced |-> {}, stack |-> <<>>, pend |-> <<>>, calls |-> <<>>, tab |-> 1, trig |-> {}, err |-> <<>>]
 Cur(st)      == IF st.stack = <<>> THEN <<>> ELSE Last(st.stack).p
 InMethod(st) == \E i \in 1..Len(st.stack) : st.stack[i].t = "method"
 Fail(st, why) == [st EXCEPT !.err = why]
-Push(st, p, t) == [st EXCEPT !.stack = Append(@, [p |-> p, t |-> t, cnt |-> 0, late |-> IF t = "scope" THEN LateTarget(st, p)
-                                                                          ELSE st.stack # <<>> /\ Last(st.stack).late])]
+\* stack entry: scope path, kind of block, statements seen, late / off (see D1b)
+PushE(st, p, t, late, off) == [st EXCEPT !.stack = Append(@, [p |-> p, t |-> t, cnt |-> 0, late |-> late, off |-> off])]
+Push(st, p, t) == PushE(st, p, t, TopLate(st), TopOff(st) \/ (t \in {"obj", "method"} /\ Displaces(st, p)))
 
 NameTriggers(st, t) ==
   (IF UsesCaretInObjectScope(st.ns, Cur(st), t.f) THEN {"D1"} ELSE {})
@@ -136,7 +141,7 @@ TermTriggers(st, t) ==
   (IF UsesOperator(t) THEN {"D5"} ELSE {})
   \cup (IF UsesWhile(t) \/ \E i \in 1..Len(st.stack) : st.stack[i].t = "while" THEN {"D7"} ELSE {})
   \cup UNION {UNION { (IF UsesCaretInObjectScope(st.ns, Cur(st), f) THEN {"D1"} ELSE {})
-                      \cup (IF PathThroughObject(st.ns, Cur(st), f, f.segs) THEN {"D2"} ELSE {})
+                      \cup (IF PathThroughObject(st.ns, Cur(st), f, f.segs) THEN {"D2c"} ELSE {})
                       : f \in NamesIn(t.x[i])} : i \in 1..Len(t.x)}
 
 Declare(st, t, kind, args, scoped) ==
@@ -201,7 +206,8 @@ Apply(st, t) ==
   ELSE CASE t.k = "scope"  -> LET tgt == ScopeTarget(st.ns, Cur(st), t.f) IN
                               IF InMethod(st) THEN Fail(st, <<"Scope inside a method", t>>)
                               ELSE IF tgt = None THEN Fail(st, <<"Scope target does not resolve", t>>)
-                              ELSE Push([st EXCEPT !.trig = @ \cup NameTriggers(st, t)], tgt, "scope")
+                              ELSE PushE([st EXCEPT !.trig = @ \cup NameTriggers(st, t)], tgt, "scope",
+                                         LateScope(st, t.f, tgt), LateScope(st, t.f, tgt))
          [] t.k = "open"   -> Declare(st, t, t.kind, t.args, "obj")
          [] t.k = "method" -> Declare(st, t, "Method", <<[t |-> "byte", n |-> <<t.flags>>]>>, "method")
          [] t.k = "decl"   -> Declare(st, t, t.kind, t.args, "")
